@@ -193,29 +193,29 @@ theorem stIterShard_q {s s' : State} {t : Tid} {k n : Nat} {seen : List Val} {ch
             Or.inr ⟨_, _, setCl_cl_self _ _ _, rfl⟩⟩
   · simp at hs
 
-theorem evictAll_buf (s : State) (st : Store) (ks : List Hash) : (evictAll s st ks).buf = s.buf := by
+theorem evictAll_buf_f (s : State) (st : Store) (ks : List Hash) : (evictAll s st ks).buf = s.buf := by
   induction ks generalizing s with
   | nil => rfl
   | cons k rest ih => unfold evictAll; split <;> simp [ih]
-theorem evictAll_sendq (s : State) (st : Store) (ks : List Hash) : (evictAll s st ks).sendq = s.sendq := by
+theorem evictAll_sendq_f (s : State) (st : Store) (ks : List Hash) : (evictAll s st ks).sendq = s.sendq := by
   induction ks generalizing s with
   | nil => rfl
   | cons k rest ih => unfold evictAll; split <;> simp [ih]
-theorem evictAll_closedMarkers (s : State) (st : Store) (ks : List Hash) :
+theorem evictAll_closedMarkers_f (s : State) (st : Store) (ks : List Hash) :
     (evictAll s st ks).closedMarkers = s.closedMarkers := by
   induction ks generalizing s with
   | nil => rfl
   | cons k rest ih => unfold evictAll; split <;> simp [ih]
-theorem evictAll_nextMarker (s : State) (st : Store) (ks : List Hash) :
+theorem evictAll_nextMarker_f (s : State) (st : Store) (ks : List Hash) :
     (evictAll s st ks).nextMarker = s.nextMarker := by
   induction ks generalizing s with
   | nil => rfl
   | cons k rest ih => unfold evictAll; split <;> simp [ih]
-theorem evictAll_store (s : State) (st : Store) (ks : List Hash) : (evictAll s st ks).store = s.store := by
+theorem evictAll_store_f (s : State) (st : Store) (ks : List Hash) : (evictAll s st ks).store = s.store := by
   induction ks generalizing s with
   | nil => rfl
   | cons k rest ih => unfold evictAll; split <;> simp [ih]
-theorem evictAll_pol (s : State) (st : Store) (ks : List Hash) : (evictAll s st ks).pol = s.pol := by
+theorem evictAll_pol_f (s : State) (st : Store) (ks : List Hash) : (evictAll s st ks).pol = s.pol := by
   induction ks generalizing s with
   | nil => rfl
   | cons k rest ih => unfold evictAll; split <;> simp [ih]
@@ -239,13 +239,13 @@ theorem stClrShard_q {s s' : State} {t : Tid} {closing : Bool} {k : Nat} {ch : C
       · rename_i ho
         simp only [Option.some.injEq] at hs; subst hs
         refine ⟨ks, by simpa using ho, by omega, ?_, ?_, ?_, ?_, ?_, ?_, ?_, ?_, ?_, ?_⟩
-        · simp [evictAll_buf]
-        · simp [evictAll_sendq]
+        · simp [evictAll_buf_f]
+        · simp [evictAll_sendq_f]
         · simp [evictAll_app]
-        · simp [evictAll_closedMarkers]
-        · simp [evictAll_nextMarker]
-        · simp [evictAll_store]
-        · simp [evictAll_pol]
+        · simp [evictAll_closedMarkers_f]
+        · simp [evictAll_nextMarker_f]
+        · simp [evictAll_store_f]
+        · simp [evictAll_pol_f]
         · simp [evictAll_closed]
         · intro t' hne; simp [setCl_cl_ne _ _ _ hne, evictAll_cl]
         · simp
